@@ -5,7 +5,9 @@ may run in the same cycle).  The reference is a partial map key -> data held as 
 bits over z3 terms (which slot a pushed pair takes is irrelevant because keys are distinct).  All calls of one cycle
 act on the map as it was at the start of the cycle: `read` returns the stored data or `not_found`; `write` reports
 `not_found` iff the key is absent and otherwise replaces the data; `remove` deletes the key; `push` is accepted iff it
-is enabled and a slot is free, and inserts the pair.  Precondition (documented as undefined behaviour otherwise): a
+is enabled and a slot is free, and inserts the pair; `read`, `write` and `remove` are total: they run whenever called, in every
+state including the empty memory (only `push` has a readiness condition in the statement and in the documentation; a lookup,
+update or deletion of an absent key answers not_found / does nothing rather than blocking its caller).  Precondition (documented as undefined behaviour otherwise): a
 pushed key is absent at the start of the cycle.  BMC from reset decides all call histories up to K cycles; a one-step
 induction from any state whose valid keys are pairwise distinct (abstraction = the visible registers, compared as
 dictionaries through a symbolic probe key) extends this to unbounded histories per configuration (CTIs are recorded,
@@ -87,7 +89,11 @@ def _step(cfg):
         ob = [("push accepted iff enabled and a slot is free", o.done("push") == z3.And(o.en("push"), free)),
               ("read reports not_found iff the key is absent", z3.Implies(o.done("read"), (o.out("read", "not_found") == 1) == z3.Not(rf))),
               ("read returns the data stored under the key", z3.Implies(z3.And(o.done("read"), rf), o.out("read", "data") == rdv)),
-              ("write reports not_found iff the key is absent", z3.Implies(o.done("write"), (o.out("write", "not_found") == 1) == z3.Not(wf)))]
+              ("write reports not_found iff the key is absent", z3.Implies(o.done("write"), (o.out("write", "not_found") == 1) == z3.Not(wf))),
+              # only push has a readiness condition in the statement and in the documentation: lookups, updates and deletions are
+              # total (they answer not_found / do nothing for an absent key), in every state including the empty memory
+              ("read, write and remove run whenever they are called (ready in every state, also on an empty memory)",
+               z3.And(o.done("read") == o.en("read"), o.done("write") == o.en("write"), o.done("remove") == o.en("remove")))]
         new = []
         taken = z3.BoolVal(False)
         for v, a, d in slots:
